@@ -25,9 +25,11 @@ inductive Cmp where
   deriving Repr, DecidableEq
 
 /-- conditions: comparisons of an address column (`sip` / `dip`) with an address literal (hex, 8 or
-    32 digits), of a numeric column (`dport` / `proto`) with a number; `!`, `&`, `|` -/
+    32 digits), membership of an address column in a network (`snet` / `dnet`, prefix length a
+    multiple of 4 bits), of a numeric column (`dport` / `proto`) with a number; `!`, `&`, `|` -/
 inductive Cond where
   | ip (src : Bool) (c : Cmp) (v : String)
+  | net (src : Bool) (c : Cmp) (v : String) (nib : Nat)   -- `snet` / `dnet`: network `v/(4*nib)`
   | num (port : Bool) (c : Cmp) (v : Nat)
   | not (a : Cond)
   | and (a b : Cond)
@@ -42,6 +44,11 @@ def Cmp.eval : Cmp → Nat → Nat → Bool
   | .le, a, b => decide (a ≤ b)
   | .ge, a, b => decide (a ≥ b)
 
+/-- address `a` lies in the network given by the first `nib` hex digits of `v`: same family (same
+    width) and the same leading digits -/
+def inNetHex (a v : String) (nib : Nat) : Bool :=
+  a.length == v.length && a.toList.take nib == v.toList.take nib
+
 /-- **denotational semantics of a condition on a flow.** An address comparison `=` holds iff the
     column equals the literal (in particular never across IP families), `!=` is its complement;
     ordering comparators on addresses are not part of the grammar (`Cond.ok`). -/
@@ -51,6 +58,12 @@ def sem : Cond → Flow → Bool
     match c with
     | .eq => a == v
     | .ne => a != v
+    | _ => false
+  | .net src c v nib, f =>
+    let a := if src then f.sip else f.dip
+    match c with
+    | .eq => inNetHex a v nib
+    | .ne => !inNetHex a v nib
     | _ => false
   | .num port c v, f => c.eval (if port then f.dport else f.proto) v
   | .not a, f => !sem a f
@@ -170,6 +183,7 @@ def isHexAddr (s : String) : Bool :=
 /-- conditions of the (simple) grammar: `=` / `!=` on addresses, numbers within the column width -/
 def Cond.ok : Cond → Bool
   | .ip _ c v => (c == .eq || c == .ne) && isHexAddr v
+  | .net _ c v nib => (c == .eq || c == .ne) && isHexAddr v && decide (nib ≤ v.length)
   | .num port _ v => if port then decide (v < 65536) else decide (v < 256)
   | .not a => a.ok
   | .and a b => a.ok && b.ok
@@ -222,6 +236,10 @@ def parseLeaf (t : String) : Option Cond :=
     let c ← parseCmp c
     if a == "sip" then some (.ip true c v)
     else if a == "dip" then some (.ip false c v)
+    else if a == "snet" || a == "dnet" then
+      match v.splitOn "/" with
+      | [h, n] => (Wire.parseNat n).map (.net (a == "snet") c h)
+      | _ => none
     else if a == "dport" then (Wire.parseNat v).map (.num true c)
     else if a == "proto" then (Wire.parseNat v).map (.num false c)
     else none
